@@ -14,6 +14,7 @@ import (
 	"sort"
 	"strconv"
 	"strings"
+	"verifshim/vsync"
 
 	bip39 "github.com/islishude/bip39"
 
@@ -196,6 +197,11 @@ var fpExclude = map[string]bool{}
 // one digest per variable.
 func fingerprint() (full, rest string, per map[string]string) {
 	vars := bip39.VerifStateVars()
+	// state that the real sync.OnceFunc / OnceValue(s) would hide in closures (registered by the
+	// shims in builds where the package's sync import is redirected)
+	for i, h := range vsync.Hidden() {
+		vars[fmt.Sprintf("sync.OnceValue#%d", i)] = h
+	}
 	names := make([]string, 0, len(vars))
 	for n := range vars {
 		names = append(names, n)
